@@ -64,6 +64,8 @@ def w_case(ctor, sizes, rng, kind, profile="dev", driver=None):
         c = xl(xn(0))
     elif ctor[0] == "cap":
         c = xl(xn(1), xn(ctor[1]))
+    elif len(ctor) == 4:
+        c = xl(xn(2), xb(ctor[1]), xn(ctor[2]), xn(ctor[3]))
     else:
         c = xl(xn(2), xb(ctor[1]), xn(ctor[2]))
     off = rng.randrange(1 << 16)
@@ -142,6 +144,8 @@ def gen_writeable(rng, tier):
     nseq = 700 if tier == "quick" else 12000
     for i in range(nseq):
         ct = rng.choice(ctors) if rng.random() < 0.7 else ("cap", rng.randrange(0, 5000))
+        if ct[0] == "from" and i % 2:
+            ct = ct + (rng.randrange(NSTORAGE),)      # the BytesMut handed to From in another representation
         sizes = w_threshold_sizes(rng, ct, rng.randrange(1, 9 if tier == "quick" else 16))
         cases.append(w_case(ct, sizes, rng, "w-threshold", "nochk" if i % 5 == 0 else "dev",
                             driver=None if i % 3 else rng.choice([1, 2, 3])))
@@ -166,6 +170,7 @@ def gen_writeable(rng, tier):
 # BytesCow::replace
 # ---------------------------------------------------------------------------------------------
 NKINDS = 7          # storage kinds of the harness (c18.rs make_cow)
+NSTORAGE = 5        # representations of a BytesMut handed to read_to_end_or_max / From<BytesMut> (c18.rs stored)
 ALPHA = b"abcdefghijklmnopqrstuvwxyz0123456789ABCDEFGHIJKLMNOPQRSTUVWXYZ_-"
 REP = b"#%&*+=?@^~" * 10
 
@@ -325,7 +330,7 @@ def adaptive_chunks(rng, initlen, spare, total, style):
 PEND = xl()
 
 
-def rd_case(init, spare, mx, sizes, rng, kind, fails=(), empties=False, profile="dev", pends=(), patience=None):
+def rd_case(init, spare, mx, sizes, rng, kind, fails=(), empties=False, profile="dev", pends=(), patience=None, storage=None):
     """pends: indexes of chunks before which the reader answers Pending (len(sizes) = after the last chunk; an index may
     occur several times); patience: None = the caller awaits to the end, k = it drops the future at the (k+1)-th Pending
     (polled by hand), (0, ms) = the same by tokio::time::timeout"""
@@ -345,8 +350,10 @@ def rd_case(init, spare, mx, sizes, rng, kind, fails=(), empties=False, profile=
     if len(sizes) in fails:
         evs.append(xn(fails[len(sizes)]))
     fields = [xb(init), xn(spare), xn(mx), xlist(evs), junk(rng)]
-    if patience is not None or pends:
+    if patience is not None or pends or storage is not None:
         fields.append(xl() if patience is None else xl(xn(patience)) if isinstance(patience, int) else xl(xn(0), xn(patience[1])))
+    if storage is not None:
+        fields.append(xn(storage))
     return Case(READ, xl(*fields), "buf.read.spec", {"kind": kind}, profile)
 
 
@@ -389,7 +396,7 @@ def gen_read(rng, tier):
         sizes = adaptive_chunks(rng, initlen, sp, total, st)
         mx = rng.choice(maxes(initlen, total) + [U64, U64, initlen + rng.randrange(0, total + 1)])
         cases.append(rd_case(data(i, initlen), sp, mx, sizes, rng, "rd-" + st, empties=(i % 4 == 0),
-                             profile="nochk" if i % 6 == 0 else "dev"))
+                             profile="nochk" if i % 6 == 0 else "dev", storage=None if i % 2 else rng.randrange(NSTORAGE)))
     # streams up to 64 KiB
     for total in ((16384, 65536) if tier == "quick" else (16384, 32768, 65535, 65536)):
         for st in ("fill", "rand", "thr"):
@@ -411,7 +418,8 @@ def gen_read(rng, tier):
         if rng.random() < 0.2 and len(sizes) > 1:
             fails[rng.randrange(0, len(sizes) + 1)] = rng.choice([7, 1, 2, 3, 4])
         mx = rng.choice([U64, U64, initlen + sum(sizes[:pos]), initlen + sum(sizes[:pos]) + 1, max(0, initlen + sum(sizes[:pos]) - 1)])
-        cases.append(rd_case(data(i, initlen), sp, mx, sizes, rng, "rd-fail", fails=fails, empties=(i % 3 == 0)))
+        cases.append(rd_case(data(i, initlen), sp, mx, sizes, rng, "rd-fail", fails=fails, empties=(i % 3 == 0),
+                             storage=None if i % 3 else rng.randrange(NSTORAGE)))
     # every error kind at every position of a short stream (a kind handled on its own would show here)
     for code in range(8, 16):
         for pos in range(0, 4):
@@ -449,7 +457,8 @@ def gen_pending(rng, tier):
         cut = rng.choice(pends)
         mx = rng.choice([U64, U64, U64, initlen + sum(sizes[:cut]), initlen + sum(sizes[:cut]) + 1, max(0, initlen + sum(sizes[:cut]) - 1)])
         cases.append(rd_case(data(i, initlen), sp, mx, sizes, rng, "rd-pend", fails=fails, pends=pends, patience=pat,
-                             empties=(i % 5 == 0), profile="nochk" if i % 6 == 0 else "dev"))
+                             empties=(i % 5 == 0), profile="nochk" if i % 6 == 0 else "dev",
+                             storage=None if i % 3 else rng.randrange(NSTORAGE)))
     # the cancellation as kvarn's callers do it: tokio::time::timeout around the helper, a reader that stalls for good.
     # The reader has exactly one Pending and stalls there whenever it is polled, so how long the timeout is (and how
     # loaded the machine is) cannot change the outcome: it only has to fire.
@@ -558,8 +567,22 @@ def gen_files(rng, tier):
     return cases
 
 
+def gen_encode(rng, tier):
+    """bodies compressed by the real gzip / brotli / zstd encoders into a WriteableBytes as comprash.rs does, decoded again"""
+    cases = []
+    texty = (b"<p>kvarn serves this paragraph again and again.</p>\n" * 4000)
+    sizes = [0, 1, 100, 5000, 70000, 200000] if tier == "quick" else [0, 1, 2, 63, 64, 65, 100, 191, 192, 193, 4096, 5000, 20000, 70000, 131072, 200000]
+    for j, n in enumerate(sizes):
+        for codec, levels in ((0, (1, 6)), (1, (3, 9) if tier != "quick" else (3,)), (2, (1, 9))):
+            for lv in levels:
+                for body in ((POOL * 2)[j:j + n], texty[:n]):     # incompressible: the output outgrows len/3 + 64 many times
+                    cases.append(Case("buf.encode", xl(xn(codec), xn(lv), xb(body), junk(rng)), "buf.encode.spec", {"kind": "encode"},
+                                      PROFILES[(j + codec + lv) % 2]))
+    return cases
+
+
 def generate(rng, tier):
-    return (gen_read(rng, tier) + gen_writeable(rng, tier) + gen_replace(rng, tier) + gen_replace_seq(rng, tier) +
+    return (gen_encode(rng, tier) + gen_read(rng, tier) + gen_writeable(rng, tier) + gen_replace(rng, tier) + gen_replace_seq(rng, tier) +
             gen_file(rng, tier) + gen_files(rng, tier))
 
 
@@ -635,12 +658,21 @@ def compare(c, i, m):
 def extra_coverage(cases, impl, model, spec):
     """cases whose answers agree on what the property fixes but not byte for byte: the model's growth constants have
     drifted from the code's (a note, not a verdict)"""
-    drift = [c.id for c in cases if c.comp.startswith("buf.read") and c.id in impl and c.id in model
-             and impl[c.id] != model[c.id] and compare(c, impl[c.id], model[c.id])]
+    def modelled_storage(c):
+        x = c.x[1]
+        return len(x) < 7 or x[6][1] == 0
+    drift_all = [c for c in cases if c.comp.startswith("buf.read") and c.id in impl and c.id in model
+                 and impl[c.id] != model[c.id] and compare(c, impl[c.id], model[c.id])]
+    drift = [c.id for c in drift_all if modelled_storage(c)]
+    other = [c.id for c in drift_all if not modelled_storage(c)]
     junk_dependent = [c.id for c in cases if impl.get(c.id, "").startswith("(L (N 91)")]
     return {"read_overshoot_drift": {"cases": len(drift), "first_ids": drift[:10],
-                                     "meaning": "implementation and model stop at different lengths >= max: the model's window "
-                                                "constants (32 / 1024 / 2/3, Vec growth) differ from the code's; allowed by the property"},
+                                     "meaning": "on a fresh buffer (the storage whose growth the model transcribes) implementation and model "
+                                                "stop at different lengths >= max: the model's window constants (32 / 1024 / 2/3, Vec growth) "
+                                                "differ from the code's; allowed by the property, but the model should follow"},
+            "read_overshoot_other_storage": {"cases": len(other),
+                                             "meaning": "the same on buffers in representations that grow differently from a fresh vector "
+                                                        "(advanced, shared, reclaimable): expected"},
             "answers_depending_on_uninitialised_memory": len(junk_dependent),
             "poison_runs_per_case": 2}
 
@@ -749,39 +781,78 @@ THEOREMS = [
      r"exists b cs max, wf b /\ ~ read_spec (contents b) cs max (read_to_end_or_max grow_vec (junk_of []) true b cs max)"),
 ]
 
-RULE = ("direct calls of kvarn_utils::WriteableBytes (new / with_capacity / From<BytesMut>, write*, into_inner), "
-        "kvarn_utils::BytesCow::replace (Ref and three kinds of Mut storage, overflow checks on and off), "
-        "kvarn_async::read_to_end_or_max driven by a scripted AsyncRead on a current-thread tokio runtime, and kvarn::read::file on a temp "
-        "file under .run/, each against the Coq model (correspondence, exact equality incl. bytes consumed from the reader) and against "
-        "the Coq specification (oracle). Writes: every single-write size around every capacity 0..11 and 126..130, pairs landing on the "
-        "boundary left by the first write, random sequences with sizes 0, 1, room-1, room, room+1, 4 KiB, around 128/192/256. "
-        "replace: every (start, end, replacement length) on bodies of 0..8 bytes incl. reversed and out-of-bounds ranges "
-        "(bounded-exhaustive; thorough: x 4 storage kinds x spare capacities), usize boundary values, random on bodies up to 64 bytes. "
-        "Streams: initial length x spare capacity around the 32-byte threshold x maxima; single-byte reads; chunks generated against a "
-        "simulation of the capacity so that reads fill the spare capacity exactly / +-1 / leave 31,32,33 bytes; streams of 16-64 KiB; "
-        "empty chunks; failing readers. distinct_nontrivial counts distinct (component, input, outcome class) triples")
+RULE = ("direct calls of kvarn_utils::WriteableBytes (new / with_capacity / From<BytesMut>; write, write_all, io::copy, write_vectored; "
+        "into_inner), kvarn_utils::BytesCow::replace (Ref, a Ref cut out of a larger Bytes, and five kinds of Mut storage: plain, "
+        "advanced, shared with a live tail, reclaimable, unique Arc; overflow checks on and off), chains of up to 10 replace calls on one "
+        "BytesCow followed by deref / freeze / into_mut / ref_mut, real gzip / brotli / zstd encoders writing into a WriteableBytes as "
+        "comprash.rs sets it up (decoded again with the standard decoders), kvarn_async::read_to_end_or_max on buffers in five "
+        "representations (fresh, advanced, shared, unique Arc, reclaimable) driven by a scripted AsyncRead "
+        "(data, failures of eight io::ErrorKinds, Pending) whose future is polled by hand, dropped at a chosen Pending, or run under "
+        "tokio::time::timeout with a reader that stalls for good, kvarn::read::file on a temp file, and histories of file changes and "
+        "reads through kvarn::read::{file, file_cached, file_cached_with_mtime} with one real FileCache and past it -- each against "
+        "the Coq model (correspondence) and against the Coq specification (oracle). Every case runs the real code twice under a "
+        "poisoning global allocator (fresh, grown and freed memory filled with 0xA5 / 0x3C): an answer that differs between the two "
+        "runs contains bytes nobody wrote. Writes: every single-write size around every capacity 0..11 and 126..130, pairs landing on "
+        "the boundary left by the first write, random sequences with sizes 0, 1, room-1, room, room+1, 4 KiB, around 128/192/256, "
+        "whole bodies of 8 KiB - 200 KB in one piece and in 8-32 KiB pieces into with_capacity(len/3+64). replace: every (start, end, "
+        "replacement length) on bodies of 0..8 bytes incl. reversed and out-of-bounds ranges (bounded-exhaustive; storage kind, spare "
+        "capacity and arithmetic mode drawn independently; thorough: all combinations), usize boundary values, random on bodies up to "
+        "64 bytes, bodies of 4 KiB - 200 KB with replacements up to 16 KiB. Streams: initial length x spare capacity around the "
+        "32-byte threshold x maxima; single-byte reads; chunks generated against a simulation of the capacity so that reads fill the "
+        "spare capacity exactly / +-1 / leave 31,32,33 bytes; streams of 16-64 KiB; empty chunks; failing readers (every kind at every "
+        "position); 1-6 Pendings at random positions with a caller that waits, that drops the future at the 1st..n-th Pending, or "
+        "whose patience outlasts the stream. Files: sizes 0..64 KiB (200 KB thorough) around 4096 and 6000 x the three functions x "
+        "miss / hit / no cache; files changed, shortened, removed or turned into a directory behind a cached entry; missing files and "
+        "directories (negative entries); procfs files (length 0 in the metadata); random histories over three paths. "
+        "distinct_nontrivial counts distinct (component, input, outcome class) triples")
 ASSUMPTIONS = [
-    "allocation sizes fit: 2*len + replacement length <= 2^64-1 in replace (hypothesis `fits` of the replace theorems); "
-    "n*3/2+128 and capacity*2/3 do not overflow usize (lengths are unbounded naturals in the model of WriteableBytes and read_to_end_or_max)",
+    "allocation sizes fit: 2*len + replacement length <= 2^64-1 in replace (hypotheses `fits` / `fits_bytes` / `fits_edits` of the "
+    "replace theorems); n*3/2+128 and capacity*2/3 do not overflow usize (lengths are unbounded naturals in the model of WriteableBytes "
+    "and read_to_end_or_max); files are shorter than 2^64-1 bytes (`op_small`)",
     "the allocator only promises capacity >= requested (hypothesis grow_ok) and BytesMut::reserve keeps the visible len bytes; "
     "bytes beyond len are arbitrary (parameter junk); the correspondence instantiates grow with Vec's amortised growth max(8, 2*cap, need)",
-    "an AsyncRead returns between 1 and room bytes per successful read while data remains and 0 bytes at the end of the stream "
-    "(stream = list of Data/Fail events); Pending/wake-ups are not modelled (the helper only awaits)",
-    "kvarn::read::file: the file is a stream (tokio::fs::File); the uring code path (feature uring, off in `full`) is not modelled",
+    "an AsyncRead returns between 1 and room bytes per successful read while data remains, writes them to the front of the window, "
+    "and returns 0 bytes only at the end of the stream (stream = list of Data / Fail / Pend events); it may return Pending any number "
+    "of times and the caller may drop the future at any of them; a reader that claims bytes it did not write, or answers 0 bytes and "
+    "later delivers more, is outside the model",
+    "the helper treats every io::ErrorKind alike (passes the error on): the model's failure carries a code, the real side maps "
+    "code mod 8 to Other / Interrupted / WouldBlock / ConnectionReset / UnexpectedEof / TimedOut / BrokenPipe / ConnectionAborted",
+    "kvarn::read::*: a file is a stream and a modification time that do not change during one call; stat succeeds whenever the file "
+    "can be opened; the FileCache (moka, 1024 entries) evicts nothing during a case and returns an inserted entry at once; the uring "
+    "code path (feature uring, off in `full`) is not modelled",
+    "when read_to_end_or_max stops at the soft maximum, how far it overshoots (its window constants 32 / 1024 / 2/3 and the allocator's "
+    "growth) is not fixed by the property: implementation and model are compared up to the maximum there, byte for byte everywhere "
+    "else; cases where they overshoot differently are counted in coverage.read_overshoot_drift",
 ]
-TRUSTED = ["modelled: utils/src/lib.rs WriteableBytes (new, with_capacity, From<BytesMut>, write, into_inner) and BytesCow::replace; "
-           "async/src/lib.rs read_to_end_or_max (+ inner reserve); src/read.rs read/file (non-uring); bytes::BytesMut::{reserve,set_len}, "
-           "slice::{copy_within,copy_from_slice} by their documented contracts"]
-LEVEL_TEXT = ("Machine-checked Coq theorems over a model of the three helpers in which a buffer is (allocation contents, visible length), "
+TRUSTED = ["modelled: utils/src/lib.rs WriteableBytes (new, with_capacity, From<BytesMut>, write, into_inner) and BytesCow "
+           "(replace, ref_mut / take_mut, freeze, into_mut); async/src/lib.rs read_to_end_or_max (+ inner reserve, the Restore drop "
+           "guard) as a state machine over polls; src/read.rs read / file / file_cached / file_cached_with_mtime (non-uring) over "
+           "a FileCache; bytes::BytesMut::{reserve,set_len}, slice::{copy_within,copy_from_slice}, BytesMut::from(&[u8]), "
+           "moka::sync::Cache::{get,insert} by their documented contracts",
+           "the harness's poisoning #[global_allocator] (harness/src/c18.rs, pass-through unless a C18 component switches it on) "
+           "and its scripted AsyncRead / hand-written poll loop"]
+LEVEL_TEXT = ("Machine-checked Coq theorems over a model of the helpers in which a buffer is (allocation contents, visible length), "
               "growth goes through an arbitrary allocation policy and uninitialised memory is an arbitrary parameter: WriteableBytes = append "
-              "for every constructor, capacity and write sequence; BytesCow::replace = splice for every in-bounds range, panic exactly when the "
-              "end lies beyond the body (both overflow modes); read_to_end_or_max returns the old contents plus the whole stream or a prefix "
-              "reaching max, for every chunking and every failing reader; read::file returns the whole file; none of the results depends on "
-              "uninitialised memory. The model is tied to /repo on every run by a differential run of the real functions (scripted AsyncRead on "
-              "a tokio current-thread runtime, temp file for read::file) against the extracted model, with exact equality of results.")
+              "for every constructor, capacity and write sequence, and the counts write returns add up; BytesCow::replace = splice for "
+              "every in-bounds range on both representations, panic exactly when the end lies beyond the body (both overflow modes), "
+              "chains of edits = chains of splices; read_to_end_or_max, modelled at the level of polls, returns the old contents plus the "
+              "whole stream or a prefix reaching max for every chunking, every failing reader and every number of Pending answers, and "
+              "when the caller drops the future at any Pending (a timeout) the buffer is well formed and holds exactly the old contents "
+              "plus the bytes delivered so far (the code before the repair made here left >= 1 uninitialised byte visible: theorem + "
+              "refutation witness); read::file returns the whole file; file / file_cached / file_cached_with_mtime over any history of "
+              "file changes answer exactly what the file held, bytes and mtime, at some moment up to the read (at the read itself with "
+              "no cache), a cached entry is stable, None is cached exactly when the read failed; none of the results depends on "
+              "uninitialised memory, cancellation included; the second transcription of read_to_end_or_max in Model/Http1Read.v "
+              "(used by C02/C07/C20) is proved to be the same function. The model is tied to the repo on every run by a differential "
+              "run of the real functions against the extracted model, and every real run is repeated under two allocator poison bytes.")
 LEVEL_NOTE = ("Trusted: Coq kernel, extraction (ExtrOcamlBasic) reduced by an in-kernel recheck sample, the hand transcription of "
               "utils/src/lib.rs, async/src/lib.rs and src/read.rs into Model/Buffers.v as validated by the differential run, the documented "
-              "contracts of BytesMut::reserve/set_len and slice::copy_within/copy_from_slice. The real side cannot choose the contents of "
-              "uninitialised memory, so junk-independence of the implementation rests on the theorem plus the model correspondence. No axioms. "
-              "One defect found and repaired: read_to_end_or_max read nothing into a full buffer of >= 32 bytes (theorem legacy_read_refuted).")
-TECHNIQUE = "Coq proof (model = spec for all inputs, capacities, growth policies and junk) + differential correspondence model vs. implementation"
+              "contracts of BytesMut::reserve/set_len/from, slice::copy_within/copy_from_slice and moka's get/insert. Junk-independence of "
+              "the implementation is now also observed: the harness poisons fresh, grown and freed memory with two different bytes and "
+              "requires identical answers (what it cannot see: reliance on the allocator copying bytes beyond len on realloc, which leaves "
+              "the answer right). Not covered: io_uring path, eviction from the FileCache, files changing during one call, readers "
+              "violating the AsyncRead contract. No axioms. Three defects found and repaired: read_to_end_or_max read nothing into a full "
+              "buffer of >= 32 bytes (legacy_read_refuted); it left the buffer's length at its capacity when its future was dropped "
+              "(unguarded_cancel_refuted, reproduced under tokio::time::timeout with poisoned memory); read::stat failed on file systems "
+              "without a creation time, so file_cached_with_mtime answered None for readable files (found by the procfs cases).")
+TECHNIQUE = "Coq proof (model = spec for all inputs, capacities, growth policies, junk, Pending/cancellation schedules and file histories) + differential correspondence model vs. implementation under a poisoning allocator"
